@@ -308,7 +308,7 @@ pub fn run(s: &mut Session) {
     let pool = pool();
     let n = pool.len();
     s.note(format!("spelling pool size {n}"));
-    s.part(
+    if crate::want(s, "spelling-pool") { s.part(
         "spelling-pool",
         "one case per pool text a: all ordered pairs (a, b) over a pool of short hand-written spellings (ints, floats, texts, blobs, bodies, attributes, nested, invalid-looking): compare == (parsed values equal) when both parse, else string equality; symmetry; equal => same recon_hash; ReconKey Eq/Hash/HashMap agree; non-trivial always; distinct by row",
         true,
@@ -328,11 +328,11 @@ pub fn run(s: &mut Session) {
                 out.set_sample(json!({"a": a, "partners": n}));
             }
         },
-    );
+    ); }
 
     let cases = s.args.budget(70_000, 7_000_000);
     let nv = VARIANTS.len() as u64;
-    s.part(
+    if crate::want(s, "reformat-pairs") { s.part(
         "reformat-pairs",
         "a generated syntax tree rendered canonically vs. rendered with ONE uniformly applied formatting variant (26 variants cycled: whitespace, separators, numeric spellings, string/attr-name quoting and escapes, explicit/implicit bodies, attr-body parens/braces), vs. the three printers' output of its parsed value, and two independent random-style renderings: all C15 oracles; non-trivial when the two texts differ; distinct by the two texts",
         false,
@@ -365,10 +365,10 @@ pub fn run(s: &mut Session) {
                 }
             }
         },
-    );
+    ); }
 
     let cases = s.args.budget(70_000, 7_000_000);
-    s.part(
+    if crate::want(s, "near-miss-pairs") { s.part(
         "near-miss-pairs",
         "a generated syntax tree vs. the same tree after one small edit (leaf changed / negated / re-typed, item dropped, duplicated, swapped, slot<->value, attribute renamed / dropped / swapped, body wrapped ...), both rendered in the same style: all C15 oracles; non-trivial when the texts differ; distinct by the two texts",
         false,
@@ -389,10 +389,10 @@ pub fn run(s: &mut Session) {
                 out,
             );
         },
-    );
+    ); }
 
     let cases = s.args.budget(50_000, 5_000_000);
-    s.part(
+    if crate::want(s, "invalid-pairs") { s.part(
         "invalid-pairs",
         "char-mutated texts (mostly invalid) paired with themselves, with a copy differing in trailing/leading whitespace, with the valid text they came from, with an independent mutated text and with an independent valid text; plus valid texts with trailing garbage: comparison must be string equality whenever one side does not parse; non-trivial when at least one text is invalid; distinct by the two texts",
         false,
@@ -429,7 +429,7 @@ pub fn run(s: &mut Session) {
                 out.set_sample(json!({"label": label, "a": clip(&a), "b": clip(&b)}));
             }
         },
-    );
+    ); }
 
     // Bounded-exhaustive: every string of up to L tokens over a small alphabet; all ordered pairs
     // of the valid ones.
@@ -497,7 +497,7 @@ pub fn run(s: &mut Session) {
     let stride = s.args.extra_u64("enum-stride").unwrap_or(if s.args.scale < 1.0 { (1.0 / s.args.scale) as u64 } else { 1 }).max(1);
     let rows: Vec<usize> = (0..groups.len()).step_by(stride as usize).collect();
     let cross = if s.args.thorough() { 40 } else { 6 };
-    s.part(
+    if crate::want(s, "token-enum-pairs") { s.part(
         "token-enum-pairs",
         "every string of up to L tokens (L = 6; 3 when scaled down) over {@a ( ) { } , : 1 b space newline} that parses, grouped by parsed value; one case per value class: ALL ordered pairs inside the class (150 random partners per member when the class has more than 150 spellings; must compare equal, same recon_hash) and for every member 6 (thorough: 40) random valid strings of other classes (must compare unequal); non-trivial when the class has >= 2 spellings; distinct by class",
         stride == 1,
@@ -571,5 +571,5 @@ pub fn run(s: &mut Session) {
                 }
             }
         },
-    );
+    ); }
 }
